@@ -455,7 +455,8 @@ def creator_case(draw, tier="quick"):
             tests[k] = {"threshold": draw(ex)}
         else:
             tests[k] = {"bbox": [-80, 40, -70, 60]}
-    return {"lats": lats, "lons": lons, "field": field, "three_d": three_d, "bbox": bbox, "start": start.isoformat(),
+    return {"stamps": draw(st.sampled_from(["monthly", "monthly", "monthly", "daily", "year_ends"])),
+            "lats": lats, "lons": lons, "field": field, "three_d": three_d, "bbox": bbox, "start": start.isoformat(),
             "end": end.isoformat(), "ndays": ndays, "year": year, "mid_month": mid_month, "tests": tests}
 
 
@@ -465,13 +466,20 @@ def write_clim(case):
     f = np.array([[np.nan if v is None else v for v in row] for row in case["field"]], dtype="float64")
     day = 15 if case["mid_month"] else 1
     times = np.array([np.datetime64(f"{case['year']}-{m:02d}-{day:02d}") for m in range(1, 13)], dtype="datetime64[ns]")
+    stamps = case.get("stamps", "monthly")
+    if stamps == "daily":
+        # a daily climatology (of a leap year when year == 2000: day of year 1 .. 366)
+        times = np.arange(np.datetime64(f"{case['year']}-01-01"), np.datetime64(f"{case['year'] + 1}-01-01")).astype("datetime64[ns]")
+    elif stamps == "year_ends":
+        times = np.array([f"{case['year']}-01-01", f"{case['year']}-07-01", f"{case['year']}-12-31"], dtype="datetime64[ns]")
+    nt = len(times)
     if case["three_d"]:
-        data = np.broadcast_to(f, (12, 2) + f.shape).copy()
+        data = np.broadcast_to(f, (nt, 2) + f.shape).copy()
         data[:, 1] = data[:, 1] + 1000.0  # a second level that must not be used (depth index 0 is)
         ds = xr.Dataset({"v": (("time", "depth", "lat", "lon"), data)},
                         coords={"time": times, "depth": [0.0, 10.0], "lat": lats, "lon": lons})
     else:
-        data = np.broadcast_to(f, (12,) + f.shape).copy()
+        data = np.broadcast_to(f, (nt,) + f.shape).copy()
         ds = xr.Dataset({"v": (("time", "lat", "lon"), data)}, coords={"time": times, "lat": lats, "lon": lons})
     p = os.path.join(tmpdir(), f"clim_{os.getpid()}.nc")
     if os.path.exists(p):
@@ -504,6 +512,7 @@ def check_creator(case, rec):
                                   ("three_d", case["three_d"]), ("nan_cells_in_box", len(vals) < nin), ("no_valid_cell", not vals),
                                   ("inbox_sum_zero", sum_zero), ("same_day_of_year", same_doy),
                                   ("leap_day_in_range", any((s + dtm.timedelta(days=k)).timetuple().tm_yday == 366 for k in range(case["ndays"])))) if on]
+    labels.append(f"time_axis={case.get('stamps', 'monthly')}" + ("_leap" if case.get("stamps") in ("daily", "year_ends") and case["year"] == 2000 else ""))
     rec.note(bool(vals) and nin < ncell and crosses_month, labels)
     if not vals:
         rec.skip("no_valid_cell_in_box")
